@@ -15,7 +15,7 @@ ASSUMPTIONS = ["read_timeout_s=None is not a documented value (min() raises Type
                "a device that keeps sending WRTE packets the operation is waiting for is making progress, not stalling",
                "flood stall kinds deliver one packet per 0.05 virtual seconds (a finite-rate device)"]
 SHARDS = {"quick": 8, "thorough": 16}
-TIME_BUDGET = {"quick": 90, "thorough": 900}
+TIME_BUDGET = {"quick": 300, "thorough": 1800}
 FLOORS = {"quick": {"stalls_reached": 5000, "timeout_args_checked": 10000, "distinct": 1000}, "thorough": {"stalls_reached": 30000}}
 EXHAUSTIVE = {"quick": False, "thorough": True}
 
